@@ -211,6 +211,21 @@ Theorem verification_in_the_model_never_wraps : forall pk A k S, length pk = 32%
 Proof. exact edm_verify_point_bounded. Qed.
 Print Assumptions verification_in_the_model_never_wraps.
 
+(** Ed25519 inside the model (edm_sign / edm_verify: SHA-512, scalars modulo L, double-and-add over the proved field
+    arithmetic; compared byte for byte with the fork): the verifier refuses — before any curve arithmetic — every
+    signature of another length than 64, with one of the three top bits of S set, with a non-canonical S, or under a key
+    that does not decode; every signature the signer produces has 64 bytes and a canonical S *)
+Theorem model_verifier_refuses_malformed : forall pk msg sig,
+  length sig <> 64%nat \/ N.land (b2n (nth 63 sig x00)) 224 <> 0 \/ is_reduced (skipn 32 sig) = false \/ pt_set_bytes pk = None ->
+  edm_verify pk msg sig = false.
+Proof. exact edm_verify_refuses. Qed.
+Print Assumptions model_verifier_refuses_malformed.
+
+Theorem model_signer_produces_canonical_S : forall seed msg,
+  length (edm_sign seed msg) = 64%nat /\ is_reduced (skipn 32 (edm_sign seed msg)) = true.
+Proof. exact edm_sign_canonical. Qed.
+Print Assumptions model_signer_produces_canonical_S.
+
 (** Scalar.signedRadix16 (the digits ScalarMult and ScalarBaseMult consume): for every 32-byte scalar below 2^255 the
     64 digits represent the scalar (sum d_i 16^i), all but the last lie in [-8, 8) and the last in [0, 8] — so every
     table lookup of the scalar multiplications is within the 8 precomputed multiples — and every intermediate of the
